@@ -173,13 +173,34 @@ func (L *lruCtx) keymatch() {
 		}
 	}
 	nIns := 0
-	allInstrs(put, func(i ssa.Instruction) {
+	// the key / bitmap as seen inside a helper of Put: the helper's parameter that receives Put's key / bitmap
+	sameAsPutParam := func(v ssa.Value, putParam ssa.Value) bool {
+		if v == putParam {
+			return true
+		}
+		par, ok := v.(*ssa.Parameter)
+		if !ok || par.Parent() == put {
+			return false
+		}
+		h := par.Parent()
+		okAll, n := true, 0
+		allInstrs(put, func(j ssa.Instruction) {
+			if call, ok := j.(*ssa.Call); ok && calleeFunc(&call.Call) == h {
+				n++
+				if argFor(call, h, par) != putParam {
+					okAll = false
+				}
+			}
+		})
+		return n > 0 && okAll
+	}
+	instrsOf(c.scope(put, 2), func(i ssa.Instruction) {
 		mu, ok := i.(*ssa.MapUpdate)
 		if !ok || path(mu.Map).lastField() != L.entries {
 			return
 		}
 		nIns++
-		okIns := mu.Key == pk
+		okIns := sameAsPutParam(mu.Key, pk)
 		// value = PushFront/PushBack(list, item) with item.key == key, item.bm == bm
 		var item ssa.Value
 		if call, ok := mu.Value.(*ssa.Call); ok && strings.HasPrefix(calleeName(&call.Call), "(*container/list.List).Push") {
@@ -200,9 +221,9 @@ func (L *lruCtx) keymatch() {
 					if st, ok := rr.(*ssa.Store); ok && st.Addr == ssa.Value(fa) {
 						switch fieldOf(fa.X.Type(), fa.Field) {
 						case L.itKey:
-							keyOK = st.Val == pk
+							keyOK = sameAsPutParam(st.Val, pk)
 						case L.itBM:
-							bmOK = st.Val == bmParam
+							bmOK = sameAsPutParam(st.Val, bmParam)
 						}
 					}
 				}
@@ -249,7 +270,15 @@ func (L *lruCtx) keymatch() {
 func (L *lruCtx) touch() {
 	const rule = "C07.touch"
 	c := L.c
-	for _, fn := range []*ssa.Function{c.a.LRUGet, c.a.LRUPut} {
+	var lookupFns []*ssa.Function
+	for _, anchor := range []*ssa.Function{c.a.LRUGet, c.a.LRUPut} {
+		for _, f := range c.scope(anchor, 2) {
+			if len(L.lookups(f)) > 0 {
+				lookupFns = append(lookupFns, f)
+			}
+		}
+	}
+	for _, fn := range lookupFns {
 		lks := L.lookups(fn)
 		if len(lks) != 1 {
 			continue
@@ -289,9 +318,14 @@ func (L *lruCtx) touch() {
 		}
 	}
 	put := c.a.LRUPut
-	if pb := listCalls(put, "PushBack"); len(pb) > 0 {
+	var pb, pf []*ssa.Call
+	for _, f := range c.scope(put, 2) {
+		pb = append(pb, listCalls(f, "PushBack")...)
+		pf = append(pf, listCalls(f, "PushFront")...)
+	}
+	if len(pb) > 0 {
 		c.r.bad(rule, safeFname(put)+": insert position", "new entries are pushed to the back of the recency list (the eviction end)", []string{c.w.ipos(pb[0])})
-	} else if pf := listCalls(put, "PushFront"); len(pf) > 0 {
+	} else if len(pf) > 0 {
 		c.r.ok(rule, safeFname(put)+": insert position", "new entries are pushed to the front", c.w.ipos(pf[0]))
 	} else {
 		c.r.bad(rule, safeFname(put)+": insert position", "new entries are not added to the recency list", []string{c.w.pos(put.Pos())})
@@ -388,7 +422,7 @@ func (L *lruCtx) account() {
 	put := c.a.LRUPut
 	// stores to item.size in Put (to tell old from new size reads)
 	var sizeStores []*ssa.Store
-	allInstrs(put, func(i ssa.Instruction) {
+	instrsOf(c.scope(put, 2), func(i ssa.Instruction) {
 		if st, ok := i.(*ssa.Store); ok {
 			if fa, ok := st.Addr.(*ssa.FieldAddr); ok && fieldOf(fa.X.Type(), fa.Field) == L.itSize {
 				sizeStores = append(sizeStores, st)
@@ -556,7 +590,7 @@ func (L *lruCtx) account() {
 		fmt.Sprintf("additions use overhead %v, subtractions %v: what is added for an item is not what is subtracted when it leaves, so the counter drifts", insertOH, evictOH), c.w.pos(put.Pos()))
 	// size recorded whenever a bitmap is stored into an item
 	n := 0
-	allInstrs(put, func(i ssa.Instruction) {
+	instrsOf(c.scope(put, 2), func(i ssa.Instruction) {
 		st, ok := i.(*ssa.Store)
 		if !ok {
 			return
@@ -568,7 +602,7 @@ func (L *lruCtx) account() {
 		n++
 		item := fa.X
 		okSize := false
-		allInstrs(put, func(j ssa.Instruction) {
+		allInstrs(st.Parent(), func(j ssa.Instruction) {
 			s2, ok := j.(*ssa.Store)
 			if !ok {
 				return
@@ -656,10 +690,14 @@ func (L *lruCtx) account() {
 				inc = true
 			}
 		}
-		if !inc || u.st.Parent() != put {
+		if !inc {
 			continue
 		}
-		if p := c.fc.pathAvoiding(put, u.st, func(i ssa.Instruction) bool { _, ok := i.(*ssa.Return); return ok }, c.fc.ipAvoid(func(i ssa.Instruction) bool { return i == ssa.Instruction(cmpI) })); p != nil {
+		from := c.liftTo(u.st, put)
+		if from == nil {
+			continue // an increase outside Put's call tree (none today)
+		}
+		if p := c.fc.pathAvoiding(put, from, func(i ssa.Instruction) bool { _, ok := i.(*ssa.Return); return ok }, c.fc.ipAvoid(func(i ssa.Instruction) bool { return i == ssa.Instruction(cmpI) })); p != nil {
 			c.r.bad(rule, fmt.Sprintf("%s: increase#%d reaches eviction", safeFname(put), k+1), "after increasing the byte counter Put can return without running the eviction loop: the cache stays over its bound", []string{c.w.ipos(u.st)}, c.fc.witnessStrings(p)...)
 		} else {
 			c.r.ok(rule, fmt.Sprintf("%s: increase#%d reaches eviction", safeFname(put), k+1), "followed by the eviction loop on every path", c.w.ipos(u.st))
@@ -684,6 +722,47 @@ func (L *lruCtx) counters() {
 			}
 			if f := path(call.Call.Value).lastField(); f != nil && f.Name() == name && c.w.ownerOf(f) == metricsT {
 				out = append(out, i)
+			}
+		})
+		// a helper that increments the counter it is given (`count(c.metrics.X)` with `if m != nil { m.Inc() }` inside)
+		allInstrs(fn, func(i ssa.Instruction) {
+			call, ok := i.(*ssa.Call)
+			if !ok {
+				return
+			}
+			h := calleeFunc(&call.Call)
+			if h == nil || !c.w.inModule(h) || h.Blocks == nil {
+				return
+			}
+			for k, a := range call.Call.Args {
+				if k >= len(h.Params) {
+					continue
+				}
+				if f := path(a).lastField(); f == nil || f.Name() != name || c.w.ownerOf(f) != metricsT {
+					continue
+				}
+				par := ssa.Value(h.Params[k])
+				// every path through the helper increments the parameter exactly when it is non-nil
+				isInc := func(j ssa.Instruction) bool {
+					ic, ok := j.(*ssa.Call)
+					return ok && ic.Call.IsInvoke() && ic.Call.Method.Name() == "Inc" && ic.Call.Value == par
+				}
+				nilEdgeP := func(pred, succ *ssa.BasicBlock) bool {
+					iff, ok := pred.Instrs[len(pred.Instrs)-1].(*ssa.If)
+					if !ok {
+						return false
+					}
+					for _, cm := range trueCmps(fact{iff.Cond, pred.Succs[0] == succ}) {
+						if cm.Op == token.EQL && cm.Y != nil && isNilConst(cm.Y) && cm.X == par {
+							return true
+						}
+					}
+					return false
+				}
+				isRet := func(j ssa.Instruction) bool { _, ok := j.(*ssa.Return); return ok }
+				if c.fc.pathFrom(h, nil, isRet, isInc, nilEdgeP) == nil && c.fc.mayContain(h, isInc, 0) {
+					out = append(out, i)
+				}
 			}
 		})
 		return out
